@@ -79,5 +79,8 @@ MUTANTS += [
     ("c07-early-partial-skips-original", "C07", P + "partial.py", "            self._original_expression.at(point)\n            return self._synthetic_partial.at(point)", "            return self._synthetic_partial.at(point)", "Partial(early)", True),
     ("c17-log-guard-removed", "C17", E + "logarithm.py", "        if inner_value == 0:\n            raise er.DomainError(\"Logarithm(x) blows up around x = 0\")\n        elif inner_value < 0:\n            raise er.DomainError(\"Logarithm(x) is undefined for x < 0\")", "        pass", "Logarithm", True),
     ("c17-rule-builds-zeroth-power", "C17", E + "nth_power.py", "return ex.NthPower(self._inner._inner, self.n * self._inner.n)", "return ex.NthPower(self._inner._inner, self.n - self._inner.n)", "NthPower._reduce_nth_power_of_mth_power", True),
+    # keeping *args as a tuple is harmless for C10 (see c10-constructor-aliases-caller-list) but the
+    # step driver then concatenates tuple + list: a TypeError escapes from normalisation
+    ("c17-constructor-keeps-args-tuple", "C17", B + "n_ary_expression.py", "        self._inners = list(args)", "        self._inners = args", "_take_reduction_step", True),
     ("c17-abstract-method-left", "C17", E + "sine.py", "    def _verify_domain_constraints(", "    def _verify_domain_constraints_renamed(", "abstract", True),
 ]
